@@ -18,6 +18,9 @@ from ..report import Ob
 from ..model import norm, type_classes, AnalysisError
 
 COORD = ('extents_to_here', 'offset_to_here', 'index_in_parent')
+# where a record was found in the opened image: a coordinate for SA-COORD, but not part of the cache that
+# _recalculate_extents_and_offsets refreshes
+FOUND_AT = ('orig_offset',)
 WITH = ('parent', 'dr_len')
 REC = 'dr.DirectoryRecord'
 
@@ -33,7 +36,7 @@ def coord(ctx):
         par = None
         groups = {}
         for n in ctx.own_nodes(fi):
-            if isinstance(n, ast.Attribute) and n.attr in COORD and isinstance(n.ctx, ast.Load) and \
+            if isinstance(n, ast.Attribute) and n.attr in COORD + FOUND_AT and isinstance(n.ctx, ast.Load) and \
                     REC in type_classes(ctx.t.expr_type(n.value, fi)):
                 st = ctx.enclosing_stmt(fi, n)
                 if par is None:
@@ -51,12 +54,12 @@ def coord(ctx):
                     continue
                 seen.add(id(st))
                 for n in ast.walk(st):
-                    if isinstance(n, ast.Attribute) and isinstance(n.ctx, ast.Load) and (n.attr in COORD or n.attr in WITH) and \
+                    if isinstance(n, ast.Attribute) and isinstance(n.ctx, ast.Load) and (n.attr in COORD + FOUND_AT or n.attr in WITH) and \
                             REC in type_classes(ctx.t.expr_type(n.value, fi)):
                         recvs.setdefault(norm(n.value), []).append(n)
                     if isinstance(n, ast.Call) and any(isinstance(a, ast.Attribute) and a.attr == 'index_in_parent' for a in n.args):
                         for a in n.args:
-                            if not isinstance(a, ast.Attribute) or a.attr not in COORD:
+                            if not isinstance(a, ast.Attribute) or a.attr not in COORD + FOUND_AT:
                                 if REC in type_classes(ctx.t.expr_type(a, fi)):
                                     recvs.setdefault(norm(a), []).append(a)
             # `x.parent.<something>`: x is the receiver, x.parent is not a second record
@@ -67,13 +70,36 @@ def coord(ctx):
                           '' if ok else 'the position is put together from the cached coordinates of different records (%s): they agree only while both records '
                           'sit in the same sector / at the same index of their directories, otherwise the bytes of another record (or another directory) are addressed'
                           % ', '.join('`%s`' % r for r in sorted(roots))))
+    # inside a loop over the records linked to an inode the record whose bytes are rewritten is the loop variable:
+    # every coordinate read there has the loop variable as its receiver (the record that was looked up by path to
+    # find the inode is a different record as soon as the file has a second name)
+    nloop = 0
+    for fi in ctx.m.pkg_functions():
+        for loop in ctx.own_nodes(fi):
+            if not (isinstance(loop, ast.For) and isinstance(loop.iter, ast.Attribute) and loop.iter.attr == 'linked_records'):
+                continue
+            t = loop.target
+            var = t.elts[0].id if isinstance(t, ast.Tuple) and t.elts and isinstance(t.elts[0], ast.Name) else t.id if isinstance(t, ast.Name) else None
+            if var is None:
+                continue
+            reads = [n for s in loop.body for n in ast.walk(s) if isinstance(n, ast.Attribute) and n.attr in COORD + FOUND_AT and isinstance(n.ctx, ast.Load)]
+            if not reads:
+                continue
+            nloop += 1
+            bad = [n for n in reads if not (isinstance(n.value, ast.Name) and n.value.id == var)]
+            obs.append(Ob('SA-COORD', '%s|for %s in %s: coordinates of the loop record' % (fi.qual, var, norm(loop.iter)), not bad, ctx.loc(fi, bad[0] if bad else loop),
+                          '' if not bad else '`%s` (line %d) is read inside the loop that rewrites each record linked to the inode, but it is a coordinate of `%s`, not of '
+                          'the loop record `%s`: every other name of the file is written at the position of that one record' % (
+                              norm(bad[0]), bad[0].lineno, norm(bad[0].value), var)))
     if ngroups < 5:
         raise AnalysisError('anchor-vanished: coordinate computations (%d)' % ngroups)
+    if nloop < 1:
+        raise AnalysisError('anchor-vanished: no loop over linked_records reads a record coordinate (modify_file_in_place)')
     return obs
 
 
 @rule('SA-COORD.refresh')
-@props('C01', 'C02', 'C07', 'C17')
+@props('C01', 'C02', 'C07')
 def refresh(ctx):
     """The coordinate cache is refreshed totally: the loop that renumbers the children of a directory
     (the only writer of extents_to_here / offset_to_here / index_in_parent) assigns all three on every
